@@ -41,7 +41,11 @@ where
                     let directive = self.line.as_directive().unwrap();
                     Some(Ok(LineBuf::Directive(directive.into())))
                 }
-                Kind::Comment => Some(Ok(LineBuf::Comment(self.line.as_ref().into()))),
+                Kind::Comment => {
+                    // SAFETY: `self.line` is a comment.
+                    let comment = self.line.as_comment().unwrap();
+                    Some(Ok(LineBuf::Comment(comment.into())))
+                }
                 Kind::Record => Some(
                     self.line
                         .as_record()
